@@ -20,6 +20,7 @@ import RedoModel.ParFWire
 import RedoModel.RowCacheWire
 import RedoModel.CyclesWire
 import RedoModel.RunLoopWire
+import RedoModel.Base
 open RedoModel RedoModel.Wire
 
 def decList (s : String) : Option (List (List Char)) :=
@@ -159,6 +160,13 @@ def respond (line : String) : String :=
   | ["parf-serial", graph, kg, tops] => ParFWire.respondSerial graph kg tops
   | ["waits-replay", reach, evs] => WaitsWire.respond reach evs
   | ["runloop-replay", kg, evs] => RunLoopWire.respond kg evs
+  | ["base-of", cwd, redos, targets] =>
+    -- cwd: hex; redos: `,`-separated hex directories that contain `.redo` (`-` = none); targets: `,`-separated hex spellings
+    match dec cwd, (if redos = "-" then some [] else (redos.splitOn ",").mapM dec), (targets.splitOn ",").mapM dec with
+    | some cwd, some rs, some ts =>
+      let rcs := rs.map (fun r => Paths.comps (Paths.normpath r))
+      enc (Paths.render true (Base.baseOf (fun d => rcs.contains d) cwd ts))
+    | _, _, _ => "bad-op"
   | ["stamp-override", a, b] =>
     match dec a, dec b with
     | some a, some b => toString (StampStr.detectOverride a b)
